@@ -1488,6 +1488,8 @@ class Engine:
             return cname == 'dict'
         if isinstance(v, (FnV, ClosureV)):
             return False
+        if isinstance(v, ClassV):
+            return cname in ('type', 'object')
         return None
 
     def bi_isinstance(self, args, kwargs, st, node):
@@ -1621,6 +1623,9 @@ class Engine:
             if h is None:
                 raise Unsupported('zip(*inputs) without a zip model in the contract')
             return h
+        h = self.ctx_hook('builtin_hook', st, 'zip', args, kwargs, node)
+        if h is not None:
+            return h
         raise Unsupported('zip%r' % (args,))
 
     def bi_sum(self, args, kwargs, st, node):
@@ -1701,6 +1706,115 @@ class Engine:
 
     def bi_min(self, args, kwargs, st, node):
         return self._minmax(args, st, False)
+
+    def _generic_comprehension(self, node, g, st2, length, elem, pytype):
+        """[elt for target in <stream of symbolic length> if cond...] evaluated once at a generic
+        index j: per j the element, the conditions and elt either all evaluate normally
+        (n(j), keep(j), value(j)) or one of them raises (r_i(j), e_i(j)).  Result:
+          * all normal: assume forall j<len. n(j); without conditions the sequence j -> value(j);
+            with conditions the order-preserving selection: length CNT_keep(len), element o is
+            value(SEL(o)) with  keep(SEL(o)) and CNT_keep(SEL(o)) = o,  and keep(j) => SEL(CNT_keep(j)) = j
+          * first failure at j0: r_i(j0) and forall j<j0. n(j)"""
+        res = []
+        j = smt.fresh('cj', smt.Int)
+        smt.FOLDS.note_index(length)
+        base = st2.fork(j >= 0, j < length)
+        base_len = len(base.pc)
+        log0 = base.ghost.get('log', ())
+
+        def cond_of(s_):
+            extra = s_.pc[base_len:]
+            return z3.And(*extra) if extra else smt.T
+        normals = []     # (state, keep z3, value)
+        raises = []      # (cond z3, exc z3 term)
+        for eo in elem(j):
+            sj = base.fork(*([eo.cond] + list(eo.facts)))
+            if not self.feasible(sj):
+                continue
+            if eo.exc is not None:
+                raises.append((cond_of(sj), eo.exc.t))
+                continue
+            self.sinks.append([])
+            try:
+                cur = [(s3, smt.T) for s3 in self.assign(g.target, eo.value, sj)]
+                for cnode in g.ifs:
+                    nxt = []
+                    for s3, keep in cur:
+                        for s4, cv in self.eval(cnode, s3):
+                            nxt.append((s4, z3.And(keep, self.truth(cv))))
+                    cur = nxt
+                for s3, keep in cur:
+                    # elt is evaluated only for kept elements; its own effects/raises under keep
+                    s_k = s3.fork(keep) if g.ifs else s3.fork()
+                    nk = len(s_k.pc)
+                    for s4, v in self.eval(node.elt, s_k):
+                        normals.append((s4, keep, v, s3, s4.pc[nk:]))
+            finally:
+                raised = self.sinks.pop()
+            for o in raised:
+                raises.append((cond_of(o.st), o.exc.t))
+        if len(normals) != 1:
+            raise Unsupported('comprehension body with %d normal outcomes per element' % len(normals))
+        s_n, keep, vb, s_pre, elt_extra = normals[0]
+        # everything evaluated normally: element and conditions, and elt where it is evaluated
+        elt_ok = z3.And(*elt_extra) if elt_extra else smt.T
+        ncond = z3.And(cond_of(s_pre), z3.Implies(keep, elt_ok) if g.ifs else elt_ok)
+        jj = smt.fresh('cq', smt.Int)
+
+        def at(term, e):
+            return z3.substitute(term, (j, e))
+        s_ok = st2.fork()
+        if not z3.is_true(z3.simplify(ncond)):
+            s_ok.pc.append(z3.ForAll([jj], z3.Implies(z3.And(jj >= 0, jj < length), at(ncond, jj))))
+        for gk, gv in s_n.ghost.items():
+            if gk != 'log':
+                s_ok.ghost[gk] = gv
+        body_log = s_n.ghost.get('log', ())[len(log0):]
+        if body_log:
+            s_ok.ghost['log'] = log0 + (('forall', j, length, body_log),)
+        py = 'list' if pytype == 'list' else 'tuple'
+        if self.feasible(s_ok):
+            if not g.ifs:
+                res.append((s_ok, SymSeqV.from_term(length, j, vb, py)))
+            else:
+                cnt = smt.FOLDS.sum(j, z3.If(keep, I(1), I(0)))
+                SEL = z3.Function('SEL!%d' % next(smt._counter), smt.Int, smt.Int)
+                L = cnt(length)
+                AX.add(z3.ForAll([jj], z3.Implies(z3.And(jj >= 0, jj < length, at(keep, jj)), SEL(cnt(jj)) == jj),
+                                 patterns=[cnt(jj)]))
+
+                def sel_elem(o, SEL=SEL, cnt=cnt, keep=keep, vb=vb):
+                    p = SEL(o)
+                    smt.FOLDS.note_index(p)
+                    AX.add(z3.Implies(z3.And(o >= 0, o < L), z3.And(p >= 0, p < length, at(keep, p), cnt(p) == o)))
+                    return vb.subst(j, p)
+                r = SymSeqV(L, sel_elem, py)
+                r.selection = (SEL, cnt, keep, j, length)
+                res.append((s_ok, r))
+        for rc, et in raises:
+            j0 = smt.fresh('j0', smt.Int)
+            s_r = st2.fork(j0 >= 0, j0 < length, at(rc, j0))
+            if not z3.is_true(z3.simplify(ncond)):
+                s_r.pc.append(z3.ForAll([jj], z3.Implies(z3.And(jj >= 0, jj < j0), at(ncond, jj))))
+            if body_log:
+                s_r.ghost['log'] = log0 + (('forall', j, j0 + 1, body_log),)
+            if self.feasible(s_r):
+                self.raise_(s_r, ExcV(at(et, j0)))
+        return res
+
+    def bi_enumerate(self, args, kwargs, st, node):
+        (x,) = args
+        length, elem = self.iter_descr(x, st)
+
+        def el(k):
+            outs = []
+            for o in elem(k):
+                if o.exc is not None:
+                    outs.append(o)
+                else:
+                    outs.append(Out(o.cond, value=TupleV([IntV(k), o.value]), facts=o.facts, tag=o.tag))
+            return outs
+        return [(st, GenStreamV(length, el, 'enumerate'))]
 
     def bi_iter(self, args, kwargs, st, node):
         (x,) = args
@@ -1957,7 +2071,11 @@ class Engine:
 
     def compare(self, op, a, b, st, node):
         if isinstance(op, (ast.Is, ast.IsNot)):
-            if isinstance(b, NoneV) or isinstance(a, NoneV):
+            if isinstance(b, NoneV) and isinstance(a, ObjV):
+                r = smt.IS_NONE(a.t)
+            elif isinstance(a, NoneV) and isinstance(b, ObjV):
+                r = smt.IS_NONE(b.t)
+            elif isinstance(b, NoneV) or isinstance(a, NoneV):
                 r = z3.BoolVal(isinstance(a, NoneV) and isinstance(b, NoneV))
             elif isinstance(a, BoolV) and isinstance(b, BoolV):
                 r = a.t == b.t
@@ -2138,62 +2256,9 @@ class Engine:
                     res.append((s, TupleV(acc, pytype == 'list')))
                 continue
             length, elem = self.iter_descr(it, st2)
-            if g.ifs:
-                h = self.ctx_hook('filtered_comprehension', st2, node, it)
-                if h is not None:
-                    res.extend(h)
-                    continue
-                raise Unsupported('comprehension with condition over a symbolic sequence')
-            j = smt.fresh('cj', smt.Int)
-            eo = elem(j)
-            if len(eo) != 1 or eo[0].exc is not None:
-                raise Unsupported('comprehension over a raising stream')
-            sj = st2.fork(j >= 0, j < length)
-            saved_names = dict(sj.env)
-            log0 = sj.ghost.get('log', ())
-            self.sinks.append([])
-            try:
-                body_res = []
-                for s3 in self.assign(g.target, eo[0].value, sj):
-                    body_res.extend(self.eval(node.elt, s3))
-            finally:
-                raised = self.sinks.pop()
-            base_len = len(st2.pc) + 2
-
-            def cond_of(s):
-                extra = s.pc[base_len:]
-                return z3.And(*extra) if extra else smt.T
-
-            if len(body_res) != 1:
-                raise Unsupported('comprehension body with %d normal outcomes' % len(body_res))
-            sb, vb = body_res[0]
-            ncond = cond_of(sb)
-            jj = smt.fresh('cq', smt.Int)
-            # all succeed
-            s_ok = st2.fork()
-            if not z3.is_true(z3.simplify(ncond)):
-                s_ok.pc.append(z3.ForAll([jj], z3.Implies(z3.And(jj >= 0, jj < length),
-                                                        z3.substitute(ncond, (j, jj)))))
-            body_log = sb.ghost.get('log', ())[len(log0):]
-            for gk, gv in sb.ghost.items():
-                if gk != 'log':
-                    s_ok.ghost[gk] = gv      # ghost bookkeeping of the generic iteration (copy ids, ...)
-            if body_log:
-                s_ok.ghost['log'] = log0 + (('forall', j, length, body_log),)
-            if self.feasible(s_ok):
-                res.append((s_ok, SymSeqV.from_term(length, j, vb, 'list' if pytype == 'list' else 'tuple')))
-            # first failure
-            for o in raised:
-                j0 = smt.fresh('j0', smt.Int)
-                rc = cond_of(o.st)
-                s_r = st2.fork(j0 >= 0, j0 < length, z3.substitute(rc, (j, j0)))
-                if not z3.is_true(z3.simplify(ncond)):
-                    s_r.pc.append(z3.ForAll([jj], z3.Implies(z3.And(jj >= 0, jj < j0),
-                                                           z3.substitute(ncond, (j, jj)))))
-                if body_log:
-                    s_r.ghost['log'] = log0 + (('forall', j, j0 + 1, body_log),)
-                if self.feasible(s_r):
-                    self.raise_(s_r, ExcV(z3.substitute(o.exc.t, (j, j0)), o.exc.clsname))
+            if length is None:
+                raise Unsupported('comprehension over an unbounded stream')
+            res.extend(self._generic_comprehension(node, g, st2, length, elem, pytype))
         return res
 
 
